@@ -95,7 +95,7 @@ CLAIMED = {
             "Real node taken to 10 life points (start() itself, connecting, awaiting the CEA, accepted-before-CER, four Open "
             "situations incl. an application thread that keeps sending, Closing) x 12 termination causes (local close, "
             "early close with a willing / silent peer, close with a silent peer, DPR, DPA, FIN, RST, refused, non-CEA), "
-            "both roles (about 50 combinations): all at d = 0, eleven at d <= 1 in quick; all at d <= 1 and four at "
+            "both roles (about 50 combinations): all at d = 0, eleven at d <= 1 in quick; all at d <= 1 and two at "
             "d <= 2 in thorough; at quiescence state "
             "Closed, sockets closed and de-registered, all worker threads gone, blocked get_message() returned, no lock "
             "held, and in the same execution a second start() with a second scripted handshake reaches Open.",
